@@ -371,6 +371,21 @@ fn spawn_worker(profile: Profile, prop: &str, tier: Tier) -> std::io::Result<Wor
     Ok(Worker { child, stdin, stdout })
 }
 
+/// Ask a worker to leave; never block on one that does not.
+fn reap(mut w: Worker) {
+    let _ = w.stdin.write_all(b"QUIT\n");
+    let _ = w.stdin.flush();
+    drop(w.stdin);
+    for _ in 0..100 {
+        if matches!(w.child.try_wait(), Ok(Some(_))) {
+            return;
+        }
+        std::thread::sleep(Duration::from_millis(50));
+    }
+    let _ = w.child.kill();
+    let _ = w.child.wait();
+}
+
 enum ChunkEnd {
     Done(J),
     Died { last_single: Option<u64>, hang: Option<u64>, status: String },
@@ -379,21 +394,27 @@ enum ChunkEnd {
 fn run_job(w: &mut Worker, job: &Job) -> ChunkEnd {
     let cmd = format!("RUN {} {} {} {}\n", job.space, job.lo, job.hi, u8::from(job.single));
     if w.stdin.write_all(cmd.as_bytes()).is_err() || w.stdin.flush().is_err() {
+        let _ = w.child.kill();
         let st = w.child.wait().map(|s| format!("{s}")).unwrap_or_default();
         return ChunkEnd::Died { last_single: None, hang: None, status: st };
     }
     let mut last_single = None;
     let mut hang = None;
-    let mut line = String::new();
+    let mut raw: Vec<u8> = Vec::new();
     loop {
-        line.clear();
-        match w.stdout.read_line(&mut line) {
+        raw.clear();
+        // bytes, not text: memory corruption in the code under test can put invalid UTF-8
+        // into what a case reports, and that must not look like the end of the stream
+        match w.stdout.read_until(b'\n', &mut raw) {
             Ok(0) | Err(_) => {
+                // never wait for a worker that may still be alive
+                let _ = w.child.kill();
                 let st = w.child.wait().map(|s| format!("{s}")).unwrap_or_default();
                 return ChunkEnd::Died { last_single, hang, status: st };
             }
             Ok(_) => {}
         }
+        let line = String::from_utf8_lossy(&raw);
         let l = line.trim_end();
         if let Some(rest) = l.strip_prefix("S ") {
             last_single = rest.parse().ok();
@@ -475,8 +496,7 @@ pub fn run_spaces(prop: &str, tier: Tier, spaces: &[Box<dyn Space>], wall_cap: D
                 if let ChunkEnd::Done(j) = run_job(&mut w, &job) {
                     runs.push(json!({"classes": j["classes"], "nontrivial": j["nontrivial"], "unknown_total": j["unknown_total"]}));
                 }
-                let _ = w.stdin.write_all(b"QUIT\n");
-                let _ = w.child.wait();
+                reap(w);
             }
         }
         if runs.len() == 2 && runs[0] != runs[1] {
@@ -586,10 +606,8 @@ pub fn run_spaces(prop: &str, tier: Tier, spaces: &[Box<dyn Space>], wall_cap: D
                         }
                     }
                 }
-                if let Some(mut w) = worker {
-                    let _ = w.stdin.write_all(b"QUIT\n");
-                    drop(w.stdin);
-                    let _ = w.child.wait();
+                if let Some(w) = worker {
+                    reap(w);
                 }
             }));
         }
